@@ -5,7 +5,7 @@
 //! once no handle is left — the wrapped sink dropped).
 //!
 //! case:  Q <cap|u> <ctor> <actions>      ctor: 0 = builder without handler, 1 = builder (capacity, then handler),
-//!                                        2 = builder (handler, then capacity), 3 = QueuingMetricSink::from / ::with_capacity
+//!                                        2 = builder (handler, then capacity), 3 = QueuingMetricSink::from / ::with_capacity, 4 = builder with every option set twice (wrong ones first)
 //!   actions = comma list of  E<h>[e|l|u|s|d] (emit on handle h; payload shape: empty string / 100 kB / non-ASCII / bare number / the same text every time) | C<h> (clone h) | D<h> (drop h) | U<h> (h dropped by a thread unwinding from a panic)
 //!             | Rk | Rz | Rn<k> | Re<id> | Ro<errno> | Rp (release the metric in the gate with Ok(len) / Ok(0) / Ok(k) / Err(id) /
 //!               Err(from_raw_os_error(errno)) / panic) | S (sample counters)
@@ -216,6 +216,10 @@ impl Rig {
     /// ctor: 0 = builder, no handler; 1 = builder, capacity then handler; 2 = builder, handler then capacity;
     ///       3 = no handler, through QueuingMetricSink::from / ::with_capacity
     pub fn with_ctor(cap: Option<usize>, ctor: u8) -> Rig {
+        // 4 = as 1, but every builder option is set twice: first a wrong capacity and a handler that must never run (it
+        //     records id 4444), then the real ones - the option set last is the one in force
+        let twice = ctor == 4;
+        let ctor = if twice { 1 } else { ctor };
         let handler = ctor == 1 || ctor == 2;
         let gate = Gate::new();
         let sink = GatedSink { gate: gate.clone() };
@@ -247,6 +251,17 @@ impl Rig {
                 b = b.with_capacity(c);
             }
         } else {
+            if twice {
+                let g2 = gate.clone();
+                if let Some(c) = cap {
+                    b = b.with_capacity(c + 7);
+                }
+                b = b.with_error_handler(move |_e: io::Error| {
+                    let mut st = g2.m.lock().unwrap();
+                    let n = st.log.len();
+                    st.handled.push((4444, n, thread::current().id()));
+                });
+            }
             if let Some(c) = cap {
                 b = b.with_capacity(c);
             }
@@ -953,6 +968,13 @@ pub fn run_case(line: &str) -> String {
                 rig.gate.m.lock().unwrap().flush_free = false;
                 if r.is_ok() { "l".to_string() } else { "le".to_string() }
             }
+            "T" => {
+                // the handle is dropped by a fresh thread that has NO name and ends normally
+                let h: usize = arg.parse().unwrap();
+                let x = rig.handles[h].take().expect("double drop");
+                let _ = thread::spawn(move || drop(x)).join();
+                "d".to_string()
+            }
             "U" => {
                 // the handle is dropped by a thread that is unwinding from a panic of its own
                 let h: usize = arg.parse().unwrap();
@@ -1017,7 +1039,7 @@ pub fn run_case(line: &str) -> String {
             }
             _ => panic!("bad action {}", a),
         };
-        if (op == "E" || op == "D" || op == "U" || op == "C" || op == "F") && t0.elapsed() > SLOW {
+        if (op == "E" || op == "D" || op == "U" || op == "T" || op == "C" || op == "F") && t0.elapsed() > SLOW {
             o.push_str("!slow");
         }
         if op != "S" && !rig.settle() {
